@@ -438,19 +438,20 @@ class ConfigLoader(BaseLoader):
         parent.addSection(type_, name, sectvalue)
 
     def importSchemaComponent(self, pkgname):
-        schema = self.schema
         if not self._private_schema:
-            # replace the schema with an extended schema on the first %import
             self._loader = SchemaLoader(self.schema.registry)
-            schema = ZConfig.info.createDerivedSchema(self.schema)
-            self._private_schema = True
-            self.schema = schema
         url = self._loader.schemaComponentSource(pkgname, '')
-        if schema.hasComponent(url):
+        if self.schema.hasComponent(url):
             return
+        # extend a copy of the schema and adopt it only once the component
+        # has been read completely, so that a failed %import leaves this
+        # loader as it was
+        schema = ZConfig.info.createDerivedSchema(self.schema)
         schema.addComponent(url)
         with self.openResource(url) as resource:
             ZConfig.schema.parseComponent(resource, self._loader, schema)
+        self._private_schema = True
+        self.schema = schema
 
     def includeConfiguration(self, section, url, defines):
         url = self.normalizeURL(url)
